@@ -203,8 +203,9 @@ def main():
     if lines:
         sys.exit(1)
     if m["errors"]:
-        for e in m["errors"][:5]:
-            print("HARNESS-ERROR: " + e, file=sys.stderr)
+        for e in sorted(set(m["errors"]))[:2]:
+            print("HARNESS-ERROR: " + e[-1800:], file=sys.stderr)
+        print("HARNESS-ERROR: %d shard error(s) in total" % len(m["errors"]), file=sys.stderr)
         sys.exit(2)
     minimum = getattr(mod, "MIN_NONTRIVIAL", {}).get(a.tier, 2)
     if distinct < minimum:
